@@ -151,6 +151,8 @@ def _grid(tier):
             if method == 'mals' and len(s['dims']) < 2:
                 continue
             for cplx in (False, True):
+                if cplx and len(s['dims']) > 3:
+                    continue            # order 4 complex: see _fp_grid
                 for solver in ('solve', 'lu'):
                     if tier == 'quick' and solver == 'lu' and cplx and len(s['dims']) > 2:
                         continue
@@ -248,6 +250,8 @@ def _fp_grid(tier):
             for cplx in (False, True):
                 if tier == 'quick' and cplx and len(s['dims']) > 2 and method == 'mals':
                     continue
+                if cplx and len(s['dims']) > 3:
+                    continue            # order 4 complex: the worker runs out of memory / z3 ignores its timeout -- not claimed
                 for repeats in (1, 2):
                     if repeats == 2 and (cplx or len(s['dims']) > 2):
                         continue
